@@ -304,7 +304,9 @@ class Type4Tag(nfc.tag.Tag):
 
             self._max_le = mle
             self._max_lc = mlc
-            self._capacity = mfs - tag + 2
+            # READ BINARY and UPDATE BINARY address the file with a 16-bit
+            # offset, a larger file can only be used up to that limit
+            self._capacity = min(mfs, 0x10000) - tag + 2
             self._readable = bool(rf == 0)
             self._writeable = bool(wf == 0)
             self._nlen_size = tag - 2
@@ -385,7 +387,7 @@ class Type4Tag(nfc.tag.Tag):
 
         def _dump_ndef_data(self):
             lines = []
-            for offset in itertools.count(0, 16):  # pragma: no branch
+            for offset in range(0, 0x10000, 16):  # pragma: no branch
                 try:
                     line = self._read_binary(offset, 16)
                     if len(line) > 0:
